@@ -193,6 +193,11 @@ def run_driver_parallel(lines, nproc=16):
         return [r[0] for r in ex.map(lambda l: run_driver([l]), lines)]
 
 
+def core_tie(names):
+    """(module, [theorem]) pairs of the statement-level ties of the given transcribed methods (one module per method)"""
+    return [('NautilusVerif.Properties.CoreTie.' + n[0].upper() + n[1:], ['Core_tie_' + n]) for n in names]
+
+
 # ----------------------------------------------------------------------------- verdicts
 
 class Check:
